@@ -13,6 +13,7 @@ RULE = ("one case = one library call chain on one generated input with every mon
         "-a, -b, -a(1-f)^2, down to -a}) checked against the closed form and then pushed through Reverse with all its monitors; "
         "nm: WGS84-like ellipsoids, |h| <= 5000 km, author's error measure; local: LocalCartesian objects (origins incl. poles, lon real, "
         "h0 in {0, +-1e7, terrain, +-1e-3..1e3 a}) each with a cloud of 8 geodetic points and 6 local points incl. the three axes; "
+        "cli: the CartConvert tool (default, -e a f incl. a fraction / sphere / prolate, -l lat0 lon0 h0, -w, -r, -p) on 8 x 150 (quick) / 8 x 1500 lines in o2 and asan builds; "
         "class = section / regime of Geocentric::IntReverse (mirrored branch predicates) / inside-outside / ellipsoid shape; "
         "distinct = distinct hash of (class, a, f, inputs); trivial = oracle self-test cases")
 ASSUMPTIONS = [
@@ -22,6 +23,8 @@ ASSUMPTIONS = [
     "regime labels mirror the branch predicates of src/Geocentric.cpp in the same double arithmetic (labels and reach counters only, never a verdict)",
     "natural length scale L = max(|r|, a, b); 'to round-off' for Reverse = K_REV*eps*L plus K_Q=4 units in the last place of each returned double mapped through the forward Jacobian",
     "height minimality is judged only outside the evolute of the meridian ellipse (astroid function > 1); inside it the comparison is recorded as information, as the property exempts it",
+    "LocalCartesian is judged as a rigid motion of the library's own Geocentric positions (which section fwd judges against the closed form) with the frame taken from the oracle",
+    "CartConvert output is compared at its printed precision (-p 6) with a double-precision evaluation of the definitions in checks/C07.py",
 ]
 RUNS = [
     dict(harness="harness/C07.cpp", flavour="o2", scale={"quick": 1.0, "thorough": 1.0}),
@@ -39,6 +42,110 @@ MANIFEST = dict(
          "det +1 and equal to the east/north/up frame defined from the ellipsoid normal; LocalCartesian equal to [e n u]^T (r - r0), distances preserved, inverses, matrix = R0^T ENU; "
          "the documented 7 nm claim in the author's own measure for |h| <= 5000 km. Held = no monitor fired on the executions observed.",
     note="Trusts libquadmath and the self-tested minimiser in oracle/ref_cart.hpp. Tolerances: Forward 4 eps L; Reverse forward image 8 eps L + 4 ulp of (lat,lon,h); |h| vs least distance 12 eps L; "
-         "M 6 eps (orthonormality/det), 8 eps (vs ENU); LocalCartesian 8 eps L; nm claim 2 x 7 nm x a/a_WGS84 (+ the measured displacement of the double input); L = max(|r|,a,b). "
-         "Precision losses of the library in extreme regimes are reported under their own narrow keys (…/oblate-e2-near-1, …/strongly-prolate, …/subnormal-squares, …/subnormal-R).",
+         "M 6 eps (orthonormality/det; 8 eps for LocalCartesian's product of two rotations), 6 eps (vs ENU); LocalCartesian 8 eps L (16 eps L + 4 ulp on paths through Reverse); nm claim 2 x 7 nm x a/a_WGS84 (+ the measured displacement of the double input); L = max(|r|,a,b). "
+         "Precision losses of the library in extreme regimes are reported under their own narrow keys, each confined to its regime and (where a bound is known) to the explained amplification: "
+         "oracle:C07/forward/closed-form/oblate-e2-near-1 (f>0.65, fixed in /repo), oracle:C07/reverse/forward-image/strongly-prolate (f<-1.5, error <= K (b/a)^2/4), "
+         "oracle:C07/reverse/forward-image/subnormal-squares (0<|Z|<1e-140 a or 0<R<1e-140 a), matrix:C07/reverse/*/subnormal-R (0<hypot(X,Y)<4 DBL_MIN); anything else reports under the general keys.",
     design_ref="DESIGN.md#c07")
+
+
+# ---------------------------------------------------------------------------------------------------------------
+# extra step: the CartConvert command-line tool (geocentric, -r, -l lat0 lon0 h0, -e a f, -w) observed from outside.
+# Printed results are compared, at the printed precision, with an independent double-precision evaluation of the
+# definitions written here (closed form, ENU frame, rigid motion); the tool's own output is fed back through -r.
+def extra(res, tier, seed, workdir):
+    import math, os, random, subprocess, sys
+    sys.path.insert(0, os.path.join(os.path.dirname(os.path.dirname(os.path.abspath(__file__))), "lib"))
+    import vbuild, driver
+
+    def fwd(a, f, lat, lon, h):
+        p, l = math.radians(lat), math.radians(lon)
+        n = a / math.sqrt(math.cos(p) ** 2 + (1 - f) ** 2 * math.sin(p) ** 2)
+        return ((n + h) * math.cos(p) * math.cos(l), (n + h) * math.cos(p) * math.sin(l), (n * (1 - f) ** 2 + h) * math.sin(p))
+
+    def local(a, f, o, lat, lon, h):
+        r0, r = fwd(a, f, *o), fwd(a, f, lat, lon, h)
+        p, l = math.radians(o[0]), math.radians(o[1])
+        e = (-math.sin(l), math.cos(l), 0.0)
+        n = (-math.sin(p) * math.cos(l), -math.sin(p) * math.sin(l), math.cos(p))
+        u = (math.cos(p) * math.cos(l), math.cos(p) * math.sin(l), math.sin(p))
+        d = [r[i] - r0[i] for i in range(3)]
+        return tuple(sum(v[i] * d[i] for i in range(3)) for v in (e, n, u))
+
+    rng = random.Random(1000003 * seed + 7)
+    nline = 150 if tier == "quick" else 1500
+    configs = [("wgs84", [], 6378137.0, 1 / 298.257223563, None, False),
+               ("e-sphere", ["-e", "6371000", "0"], 6371000.0, 0.0, None, False),
+               ("e-fraction", ["-e", "6378388", "1/297"], 6378388.0, 1 / 297.0, None, False),
+               ("e-prolate", ["-e", "1000", "-0.5"], 1000.0, -0.5, None, False),
+               ("e-oblate-0.5", ["-e", "1e7", "0.5"], 1e7, 0.5, None, False),
+               ("local", None, 6378137.0, 1 / 298.257223563, "rand", False),
+               ("local-w", None, 6378137.0, 1 / 298.257223563, "rand", True),
+               ("local-pole-e", None, 6.4e6, 0.1, (90.0, 33.0, -1000.0), False)]
+    for flavour in ("o2", "asan"):
+        tools = vbuild.tools(flavour)
+        exe = tools["CartConvert"]
+        env = dict(os.environ); env.update(driver.SAN_ENV)
+        for name, args, a, f, org, lonfirst in configs:
+            if org == "rand":
+                org = (round(rng.uniform(-90, 90), 6), round(rng.uniform(-180, 180), 6), round(rng.uniform(-1e4, 1e7), 3))
+            if args is None:
+                args = (["-w"] if lonfirst else []) + ["-l"] + ["%r" % v for v in ((org[1], org[0], org[2]) if lonfirst else org)]
+                if (a, f) != (6378137.0, 1 / 298.257223563):
+                    args = ["-e", "%r" % a, "%r" % f] + args
+            pts = [(round(rng.uniform(-89, 89), 9), round(rng.uniform(-180, 180), 9), round(rng.choice([rng.uniform(-1e4, 1e4), rng.uniform(-1e5, 1e7)]) * a / 6.4e6, 4))
+                   for _ in range(nline)]
+            text = "".join(("%.9f %.9f %.4f\n" % ((q[1], q[0], q[2]) if lonfirst else q)) for q in pts)
+            cls = "cli/CartConvert/" + name
+            res.classes[cls] = res.classes.get(cls, 0) + 2 * nline
+            res.evals += 2 * nline
+
+            def viol(key, detail):
+                res.add_viol(dict(key=key, **{"class": cls}, run="CartConvert." + flavour, section="cli", idx=0, seed=seed, flavour=flavour,
+                                  harness="harness/C07.cpp", detail=detail))
+
+            def run(extra_args, inp):
+                p = subprocess.run([exe] + args + extra_args, input=inp, stdout=subprocess.PIPE, stderr=subprocess.PIPE, text=True, env=env, timeout=600)
+                if p.returncode != 0 or p.stderr.strip():
+                    k = driver._san_key(p.stderr) or "cli:C07/CartConvert/exit-status-or-stderr"
+                    viol(k, dict(cmd=[exe] + args + extra_args, exit=p.returncode, stderr=p.stderr[-2000:]))
+                    return None
+                return p.stdout.splitlines()
+            out = run(["-p", "6"], text)
+            if out is None:
+                continue
+            if len(out) != nline:
+                viol("cli:C07/CartConvert/line-count", dict(cmd=args, want=nline, got=len(out)))
+                continue
+            worst = 0.0
+            for q, line in zip(pts, out):
+                got = [float(t) for t in line.split()]
+                want = local(a, f, org, *q) if org else fwd(a, f, *q)
+                scale = max(abs(v) for v in fwd(a, f, *q)) + (max(abs(v) for v in fwd(a, f, *org)) if org else 0)
+                err = max(abs(got[i] - want[i]) for i in range(3))
+                worst = max(worst, err)
+                if not err <= 2e-6 + 1e-14 * scale:
+                    viol("cli:C07/CartConvert/" + ("local-forward" if org else "forward"), dict(cmd=args, input=q, got=got, want=want, err=err))
+                    break
+            o = res.obs.setdefault("cli CartConvert forward vs definition at -p 6 [m]", dict(max=0.0, n=0, at={}, run="CartConvert"))
+            o["n"] += nline; o["max"] = max(o["max"], worst)
+            back = run(["-r", "-p", "6"], "\n".join(out) + "\n")
+            if back is None or len(back) != nline:
+                if back is not None:
+                    viol("cli:C07/CartConvert/line-count", dict(cmd=args + ["-r"], want=nline, got=len(back)))
+                continue
+            worst = 0.0
+            for q, line in zip(pts, back):
+                g = [float(t) for t in line.split()]
+                if lonfirst:
+                    g = [g[1], g[0], g[2]]
+                n_ = a / math.sqrt(math.cos(math.radians(q[0])) ** 2 + (1 - f) ** 2 * math.sin(math.radians(q[0])) ** 2)
+                dl = math.remainder(g[1] - q[1], 360.0)
+                # position error implied by the differences (m); inputs were rounded to 1e-6 m by the first pass
+                err = math.hypot(math.hypot(math.radians(g[0] - q[0]) * (n_ + abs(q[2])), math.radians(dl) * (n_ + abs(q[2])) * math.cos(math.radians(q[0]))), g[2] - q[2])
+                worst = max(worst, err)
+                if not err <= 2e-5 * max(1.0, a / 6.4e6):   # 1e-6 m rounding of x,y,z and 1e-11 deg / 1e-6 m rounding of the answer
+                    viol("cli:C07/CartConvert/" + ("local-roundtrip" if org else "reverse-roundtrip"), dict(cmd=args + ["-r"], input=q, got=g, err_m=err))
+                    break
+            o = res.obs.setdefault("cli CartConvert -r of its own output vs original geodetic [m]", dict(max=0.0, n=0, at={}, run="CartConvert"))
+            o["n"] += nline; o["max"] = max(o["max"], worst)
